@@ -4,6 +4,7 @@ import (
 	"fmt"
 	"os"
 	"path/filepath"
+	"regexp"
 	"sort"
 	"strings"
 
@@ -180,30 +181,16 @@ func errClass(err error) string {
 	if err == nil {
 		return "success"
 	}
-	s := err.Error()
-	var sb strings.Builder
-	for _, f := range strings.Fields(s) {
-		if len(f) >= 32 && strings.Count(f, "-") >= 4 {
-			f = "<uuid>"
-		}
-		allDigit := true
-		for _, c := range f {
-			if c < '0' || c > '9' {
-				allDigit = false
-			}
-		}
-		if allDigit {
-			f = "N"
-		}
-		sb.WriteString(f)
-		sb.WriteString(" ")
+	s := uuidRe.ReplaceAllString(err.Error(), "<uuid>")
+	s = digitsRe.ReplaceAllString(s, "N")
+	if len(s) > 160 {
+		s = s[:160]
 	}
-	out := strings.TrimSpace(sb.String())
-	if len(out) > 160 {
-		out = out[:160]
-	}
-	return out
+	return s
 }
+
+var uuidRe = regexp.MustCompile(`[0-9a-fA-F]{8}-[0-9a-fA-F]{4}-[0-9a-fA-F]{4}-[0-9a-fA-F]{4}-[0-9a-fA-F]{12}`)
+var digitsRe = regexp.MustCompile(`\d+`)
 
 // checkStore compares the stored state with the model: point count, reads by
 // id (live, deleted, unknown) and the raw points/internal buckets.
